@@ -75,12 +75,12 @@ fn main() {
                             }
                         },
                         Verdict::ModelMismatch(d) => {
-                            if model_mismatches.len() < 50 {
+                            if model_mismatches.len() < 200 {
                                 model_mismatches.push((case.human.clone(), d));
                             }
                         },
                         Verdict::SpecViolation(d) => {
-                            if spec_violations.len() < 50 {
+                            if spec_violations.len() < 5000 {
                                 spec_violations.push((case.human.clone(), d));
                             }
                         },
